@@ -20,6 +20,6 @@ for path in sorted(glob.glob(os.path.join(REPO, "src/read/*.rs"))):
         if m.group(1) == "is_ascii_digit": chars.update("0123456789")
         elif m.group(1) in ("is_done", "is_some", "is_none", "is_empty", "is_zero"): pass
         else: lint.append("%s: character classification %s not understood by the learner" % (path, m.group(1)))
+sys.stdout.write("".join(sorted(chars)))
 if lint:
     sys.stderr.write("\n".join(lint) + "\n"); sys.exit(2)
-sys.stdout.write("".join(sorted(chars)))
